@@ -543,6 +543,7 @@ def build_cases(ctx, rng):
 
 
 def run(ctx):
+    ctx.liveness("ProteinGroups", unfair_control=not ctx.quick)      # termination under weak fairness (ProteinGroups_live.cfg)
     from engine.tlc import MachineryError
     from drivers.common import pmap
     logging.disable(logging.CRITICAL)        # "No sequence was detected" warnings of header-only entries
